@@ -837,6 +837,11 @@ class JSONParser(Parser, LegacyItemAccess):
         # JSONParser used to raise an exception for valid "null" JSON string
         if self.data is None:
             raise SkipComponent("Empty input")
+        # A document is a mapping or a sequence; a bare scalar is not one
+        if not isinstance(self.data, (dict, list)):
+            cls = self.__class__
+            name = ".".join([cls.__module__, cls.__name__])
+            raise ParseException("%s couldn't parse json." % name)
 
 
 class ScanMeta(type):
